@@ -16,13 +16,13 @@ def box_replay(ck, box, only):
         if not b:
             ck.compile_violation("h_box/" + sp["flavour"], log)
             continue
-        rc, out, err = ck.run([b, "replay", box], timeout=900)
+        rc, out, err = ck.run([b, "replay", box, only], timeout=900)
         s = ck.harness_output("box-replay-" + sp["flavour"], rc, out, err, only=only)
         ck.cov["cases_replayed"] += s.get("cases", 0)
         ck.cov["impl_checks"] += s.get("checks", 0)
         # code -> spec: random boxes / coordinates abstracted to order relations
         tr = ck.path("box-trace-%s.ndjson" % sp["flavour"])
-        rc, out, err = ck.run([b, "trace", str(ck.seed), "300" if ck.quick else "3000", tr], timeout=900)
+        rc, out, err = ck.run([b, "trace", str(ck.seed), "300" if ck.quick else "3000", tr, only], timeout=900)
         s = ck.harness_output("box-trace-" + sp["flavour"], rc, out, err)
         if rc == 0:
             mine = ck.path("box-trace-%s-%s.ndjson" % (only, sp["flavour"]))     # only this property's events
